@@ -644,6 +644,53 @@ impl Rig {
                 }
                 self.conns.lock().unwrap().insert(conn, Arc::new(Mutex::new(ClientConn { stream: s, buf: Vec::new(), port })));
             }
+            // resource exhaustion: the process has no free file descriptor while connections arrive (accept fails with
+            // EMFILE for as long as that lasts); then descriptors are free again and the waiting clients send their requests
+            "emfile_burst" => {
+                let k = st["clients"].as_u64().unwrap_or(3) as usize;
+                let hold_ms = st["hold_ms"].as_u64().unwrap_or(150);
+                let tag = st["tag"].as_str().unwrap_or("emfile").to_string();
+                let mut socks = Vec::new();
+                for _ in 0..k {
+                    if let Ok((s_, port)) = client_socket(0, self.proxy_addr) {
+                        socks.push((s_, port));
+                    }
+                }
+                let mut old: libc::rlimit = unsafe { std::mem::zeroed() };
+                unsafe { libc::getrlimit(libc::RLIMIT_NOFILE, &mut old) };
+                let low = libc::rlimit { rlim_cur: 600.min(old.rlim_cur), rlim_max: old.rlim_max };
+                unsafe { libc::setrlimit(libc::RLIMIT_NOFILE, &low) };
+                let mut fill = Vec::new();
+                loop {
+                    match std::fs::File::open("/dev/null") {
+                        Ok(f) => fill.push(f),
+                        Err(_) => break,
+                    }
+                    if fill.len() > 5000 {
+                        break;
+                    }
+                }
+                let filled = fill.len();
+                let mut connected = 0;
+                for (s_, _) in socks.iter() {
+                    if client_connect(s_, self.proxy_addr).is_ok() {
+                        connected += 1;
+                    }
+                }
+                std::thread::sleep(Duration::from_millis(hold_ms));
+                drop(fill);
+                unsafe { libc::setrlimit(libc::RLIMIT_NOFILE, &old) };
+                verif::trace::emit(json!({"e": "EmfileBurst", "tag": tag, "filled": filled, "connected": connected}));
+                for (i, (s_, port)) in socks.into_iter().enumerate() {
+                    let _ = s_.set_read_timeout(Some(Duration::from_millis(5000)));
+                    let conn = format!("{}_{}", tag, i);
+                    let mut cc = ClientConn { stream: s_, buf: Vec::new(), port };
+                    let id = format!("{}_r{}", tag, i);
+                    let req = format!("GET /after-emfile/{} HTTP/1.1\r\nHost: h\r\nx-verif-id: {}\r\n\r\n", i, id);
+                    let werr = cc.stream.write_all(req.as_bytes()).err().map(|e| format!("{}", e.kind()));
+                    recv_one(&conn, &id, &mut cc, werr);
+                }
+            }
             // environment action: the kernel publishes a record under the source-port number of `conn` (as a connect of another
             // socket with the same port number would) while `conn` itself is already open
             "inject_record" => {
